@@ -16,4 +16,17 @@ theorem C03_kernel_queue_size (N : Nat) (hN : 1 ≤ N) (cfg : Cfg)
   have : 1 ≤ cfg.cap := by omega
   simp [h1, hN, this]
 
+/-- what the collector is handed for an item of each kind: (exceptions non-empty, piece_hash non-empty) -/
+def kindFlags : ItemKind → Bool × Bool
+  | .data => (false, true)
+  | .mismatch => (false, true)      -- a digest that differs is still a digest; the verifying callback turns it into an error
+  | .nodata => (false, false)
+  | .exc => (true, false)
+
+/-- `Collector._collect`: the model adds an item to `collected` exactly when the code's test
+    (`not exceptions and piece_hash`) stores the result in `_hashes_unsorted` -/
+theorem C03_kernel_collect_stores (kind : ItemKind) :
+    (kind == .data || kind == .mismatch) = collectStores (kindFlags kind).1 (kindFlags kind).2 := by
+  cases kind <;> rfl
+
 end Torf.C03
